@@ -3,6 +3,7 @@ package props
 import (
 	"bytes"
 	"fmt"
+	mail "github.com/wneessen/go-mail"
 	"strings"
 	"testing"
 
@@ -21,6 +22,10 @@ type c01Case struct {
 	// PriorFail > 0: before this message is rendered, ANOTHER message (a twin built from the same
 	// program) was rendered in this process into a destination that failed after that many bytes.
 	PriorFail int `json:"prior_fail,omitempty"`
+	// Reencode > 0: after the (verified) render the caller changes the transfer encoding of body part
+	// number Reencode through Part.SetEncoding and renders again; the second rendering is judged like
+	// the first, against the new encoding.
+	Reencode int `json:"reencode,omitempty"`
 }
 
 func c01Run(c c01Case) []*core.Violation {
@@ -56,6 +61,32 @@ func c01Run(c c01Case) []*core.Violation {
 		}
 		rec.AddExtra("crosscheck_agreements", 1)
 	}
+	if c.Reencode > 0 && c.Reencode <= np && len(vs) == 0 {
+		parts := b.Msg.GetParts()
+		if len(parts) >= c.Reencode {
+			k := c.Reencode - 1
+			newEnc := "base64"
+			if b.Leaves[k].CTE == "base64" {
+				newEnc = "8bit"
+			}
+			if newEnc == "base64" {
+				parts[k].SetEncoding(mail.EncodingB64)
+			} else {
+				parts[k].SetEncoding(mail.NoEncoding)
+			}
+			leaves2 := append([]gen.Leaf{}, b.Leaves...)
+			leaves2[k].CTE = newEnc
+			var buf2 bytes.Buffer
+			if _, err := b.Msg.WriteTo(&buf2); err != nil {
+				return []*core.Violation{core.V("render-error", "second render (after SetEncoding on part %d) failed: %v", c.Reencode, err)}
+			}
+			for _, v := range oracle.CompareLeaves(mimeread.Parse(buf2.Bytes()), leaves2, np, ne, na, oracle.LeafOpts{NoDesc: true}) {
+				v.Msg = fmt.Sprintf("after Part.SetEncoding(%s) on part %d and a second render: %s", newEnc, c.Reencode, v.Msg)
+				vs = append(vs, v)
+			}
+			rec.Class("re-encoded-between-two-renders")
+		}
+	}
 	// evidence
 	shape := fmt.Sprintf("p%d/e%d/a%d", np, ne, na)
 	rec.Class("shape:" + gen.ExpectedShape(np, ne, na))
@@ -86,6 +117,9 @@ func c01Opts() gen.GenOpts {
 
 func c01Gen(t *rapid.T) c01Case {
 	c := c01Case{Spec: *gen.Program(t, c01Opts())}
+	if len(c.Spec.Parts) > 0 && rapid.IntRange(0, 5).Draw(t, "reencode") == 0 {
+		c.Reencode = rapid.IntRange(1, len(c.Spec.Parts)).Draw(t, "reencodepart")
+	}
 	if rapid.IntRange(0, 5).Draw(t, "priorfail") == 0 {
 		c.PriorFail = rapid.IntRange(1, 4000).Draw(t, "priorfailat")
 	}
@@ -97,7 +131,7 @@ func c01Describe() {
 	rec.Rule = "message programs drawn by rapid: message encoding in {QP, base64, 8bit}; 0..4 body parts/alternatives (string, writer, text and HTML template setters; per-part encoding, charset, description), " +
 		"0..3 embeds and 0..3 attachments from every file source (reader, read-seeker, file on disk, fs.FS, templates, custom File.Writer) with per-file encoding/content type/description/content-id; contents from labelled byte classes " +
 		"(CRLF/LF/lone-CR line breaks, '=' runs, leading dots, trailing blanks, boundary-like lines, lines of 72..80/150/998..1001 columns, UTF-8 straddling column 76, arbitrary binary, sizes around 57n and 76n, empty). " +
-		"One case in six is rendered after another message (a twin of the same program) failed to render into a destination that broke after 1..4000 bytes. Oracle: own RFC 5322/2045/2046/2047 reader on WriteTo's output: leaf list == model in order (type, charset, CTE, disposition, file name, decoded bytes; QP modulo LF->CRLF), nesting shape, boundaries, count; cross-checked with net/mail + mime/multipart. " +
+		"One case in six changes the transfer encoding of a body part through Part.SetEncoding after the first render and renders again (judged against the new encoding). One case in six is rendered after another message (a twin of the same program) failed to render into a destination that broke after 1..4000 bytes. Oracle: own RFC 5322/2045/2046/2047 reader on WriteTo's output: leaf list == model in order (type, charset, CTE, disposition, file name, decoded bytes; QP modulo LF->CRLF), nesting shape, boundaries, count; cross-checked with net/mail + mime/multipart. " +
 		"Non-trivial: >= 2 leaves, or a leaf whose content contains a byte its CTE must transform. Distinct by (message encoding, per-leaf type/encoding/content-class set)."
 	rec.Assumptions = []string{"quoted-printable text parts are generated with CRLF/LF line breaks only (lone CR is outside the statement's domain for QP text)",
 		"a caller-chosen boundary is generated only for programs with exactly one multipart level (the documented domain of WithBoundary)", "the host's MIME table may pick any syntactically valid type for files without a declared content type"}
